@@ -5,7 +5,8 @@ from . import tygen as TG
 from . import gencrate as GC
 from . import datacases as D
 
-THEOREMS = ["C08_crypto_stream_roundtrip", "C08_write_fault", "C08_write_fault_flushed", "C08_drop_after_failed_flush_silent"]
+THEOREMS = ["C08_crypto_stream_roundtrip", "C08_write_fault", "C08_write_fault_flushed", "C08_drop_after_failed_flush_silent",
+            "C08_chunking_independent", "C08_serve_total", "C08_served_intact", "C08_read_fault"]
 HEADER = "From Coq Require Import String.\nFrom SF Require Import Bytes Crypto CryptoIo HarnessC8.\nImport ListNotations.\nOpen Scope string_scope.\nOpen Scope N_scope.\n"
 
 SCHEDS = ["1", "2", "7", "3,1,4,1,5,9,2,6", "0,1", "3,0", "0,5,0,0,2", "8,0,4", "1,1,1,0"]
